@@ -21,16 +21,30 @@
 #include <setjmp.h>
 #include <dlfcn.h>
 #include <sys/types.h>
+#include <sys/mman.h>
+#include <unistd.h>
 
 #define BOSU ((size_t)-1)
 typedef int (*spf)(char *, size_t, size_t, const char *, ...);
 typedef int (*fpf)(FILE *, const char *, ...);
-static spf f_sprintf, f_snprintf; static fpf f_fprintf;
+typedef int (*ppf)(const char *, ...);
+static spf f_sprintf, f_snprintf; static fpf f_fprintf; static ppf f_printf;
+static int (*f_vsprintf)(char *, size_t, size_t, const char *, va_list), (*f_vsnprintf)(char *, size_t, size_t, const char *, va_list), (*f_vfprintf)(FILE *, const char *, va_list), (*f_vprintf)(const char *, va_list);
+static int w_vsprintf(char *d, size_t n, const char *fmt, ...) { va_list ap; va_start(ap, fmt); int r = f_vsprintf(d, n, BOSU, fmt, ap); va_end(ap); return r; }
+static int w_vsnprintf(char *d, size_t n, const char *fmt, ...) { va_list ap; va_start(ap, fmt); int r = f_vsnprintf(d, n, BOSU, fmt, ap); va_end(ap); return r; }
+static int w_vfprintf(FILE *fp, const char *fmt, ...) { va_list ap; va_start(ap, fmt); int r = f_vfprintf(fp, fmt, ap); va_end(ap); return r; }
+static int w_vprintf(const char *fmt, ...) { va_list ap; va_start(ap, fmt); int r = f_vprintf(fmt, ap); va_end(ap); return r; }
+static FILE *res, *sfp; static int so_fd, sf_fd;     /* results go to res; fd 1 is a memory file that receives printf_s output */
+#define printf(...) fprintf(res, __VA_ARGS__)
+#define NENT 8
+#define IS_STREAM(e) ((e) == 2 || (e) == 3 || (e) == 6 || (e) == 7)
+#define IS_STDOUT(e) ((e) == 3 || (e) == 7)
+#define IS_TRUNC(e) ((e) == 1 || (e) == 5)
 static int h_n; static void handler(const char *m, void *p, int e) { (void)m; (void)p; (void)e; h_n++; }
 static sigjmp_buf jb; static volatile int armed;
 static void on_sig(int s) { (void)s; if (!armed) _exit(3); armed = 0; siglongjmp(jb, 1); }
 
-enum { T_NONE, T_INT, T_LONG, T_LLONG, T_SSIZE, T_IMAX, T_PTRDIFF, T_UINT, T_ULONG, T_ULLONG, T_SIZE, T_UIMAX, T_DBL, T_LDBL, T_STR, T_WSTR, T_WINT, T_CHAR };
+enum { T_NONE, T_INT, T_LONG, T_LLONG, T_SSIZE, T_IMAX, T_PTRDIFF, T_UINT, T_ULONG, T_ULLONG, T_SIZE, T_UIMAX, T_DBL, T_LDBL, T_STR, T_WSTR, T_WINT, T_CHAR, T_MULTI };
 typedef union { long long i; unsigned long long u; double d; long double ld; const char *s; const wchar_t *w; } Val;
 
 /* value tables */
@@ -42,11 +56,36 @@ static const wchar_t *WV[] = { L"", L"wide", L"\xe9\x20ac" };
 static const wint_t WCV[] = { L'A', 0xe9 };
 static const int CV[] = { 'A', '%', 0x7f };
 
+/* several directives in one format: integer-class arguments travel as longs, doubles as doubles (separate register
+ * classes in the x86-64 calling convention, so one call shape serves every mix) */
+static long MA[8]; static double MF[4];
+typedef struct { const char *txt; char kind; } Menu;   /* kind: i int, l long, s string, w wide string, f double, c char, * width+int, - none */
+static const Menu MENU[] = { {"%d",'i'}, {"%5d",'i'}, {"%-5d|",'i'}, {"%05d",'i'}, {"%+.3d",'i'}, {"%#x",'i'}, {"%ld",'l'}, {"%c",'c'}, {"%s",'s'}, {"%.2s",'s'}, {"%-8s|",'s'},
+                             {"%ls",'w'}, {"%*d",'*'}, {"%%",'-'}, {"%f",'f'}, {"%.2f",'f'}, {"%e",'f'}, {"%g",'f'}, {"%10.3f",'f'}, {"%hhu",'i'}, {"%zu",'l'}, {"%lc",'c'} };
+#define NMENU ((int)(sizeof MENU / sizeof MENU[0]))
+static int build_multi(const int *ix, int k, int variant, char *fmt) {
+    int na = 0, nf = 0; char *p = fmt; memset(MA, 0, sizeof MA); memset(MF, 0, sizeof MF);
+    for (int i = 0; i < k; i++) { const Menu *m = &MENU[ix[i]]; int v = (variant + i) & 1;
+        if (i) { *p++ = ','; *p++ = ' '; } p = stpcpy(p, m->txt);
+        switch (m->kind) {
+        case 'i': MA[na++] = v ? -42 : 7; break; case 'l': MA[na++] = v ? 0x7fffffffffffffffL : 1234567890123L; break;
+        case 'c': MA[na++] = v ? 'z' : 'A'; break; case 's': MA[na++] = (long)(v ? SV[3] : SV[1]); break; case 'w': MA[na++] = (long)(v ? WV[2] : WV[1]); break;
+        case '*': MA[na++] = v ? -6 : 6; MA[na++] = 42; break; case 'f': MF[nf++] = v ? -0.001 : 2.5; break; }
+        if (na > 8 || nf > 4) return -1; }
+    *p = 0; return 0;
+}
+static int parse_multi(const char *fmt, int *ix) {
+    int k = 0; const char *p = fmt;
+    while (*p) { int best = -1; size_t bl = 0; for (int m = 0; m < NMENU; m++) { size_t l = strlen(MENU[m].txt); if (!strncmp(p, MENU[m].txt, l) && l > bl) { best = m; bl = l; } }
+        if (best < 0 || k >= 4) return -1; ix[k++] = best; p += bl; if (p[0] == ',' && p[1] == ' ') p += 2; }
+    return k;
+}
+#define MARGS MA[0], MA[1], MA[2], MA[3], MA[4], MA[5], MA[6], MA[7], MF[0], MF[1], MF[2], MF[3]
 static int call_lib(int entry, char *d, size_t dmax, FILE *fp, const char *fmt, int type, Val v, int ns, int s1, int s2) {
-#define ARGS(X) (ns == 0 ? CALL1(X) : ns == 1 ? CALL2(s1, X) : CALL3(s1, s2, X))
-#define CALL1(X) (entry == 0 ? f_sprintf(d, dmax, BOSU, fmt, X) : entry == 1 ? f_snprintf(d, dmax, BOSU, fmt, X) : f_fprintf(fp, fmt, X))
-#define CALL2(A, X) (entry == 0 ? f_sprintf(d, dmax, BOSU, fmt, A, X) : entry == 1 ? f_snprintf(d, dmax, BOSU, fmt, A, X) : f_fprintf(fp, fmt, A, X))
-#define CALL3(A, B, X) (entry == 0 ? f_sprintf(d, dmax, BOSU, fmt, A, B, X) : entry == 1 ? f_snprintf(d, dmax, BOSU, fmt, A, B, X) : f_fprintf(fp, fmt, A, B, X))
+#define EC(...) (entry == 0 ? f_sprintf(d, dmax, BOSU, fmt, __VA_ARGS__) : entry == 1 ? f_snprintf(d, dmax, BOSU, fmt, __VA_ARGS__) : entry == 2 ? f_fprintf(fp, fmt, __VA_ARGS__) : entry == 3 ? f_printf(fmt, __VA_ARGS__) : \
+                 entry == 4 ? w_vsprintf(d, dmax, fmt, __VA_ARGS__) : entry == 5 ? w_vsnprintf(d, dmax, fmt, __VA_ARGS__) : entry == 6 ? w_vfprintf(fp, fmt, __VA_ARGS__) : w_vprintf(fmt, __VA_ARGS__))
+#define ARGS(X) (ns == 0 ? EC(X) : ns == 1 ? EC(s1, X) : EC(s1, s2, X))
+    if (type == T_MULTI) return EC(MARGS);
     switch (type) {
     case T_NONE: return ARGS(0);
     case T_INT: case T_CHAR: return ARGS((int)v.i); case T_LONG: return ARGS((long)v.i); case T_LLONG: return ARGS((long long)v.i);
@@ -59,6 +98,7 @@ static int call_lib(int entry, char *d, size_t dmax, FILE *fp, const char *fmt, 
 }
 static int call_ref(char *d, size_t n, const char *fmt, int type, Val v, int ns, int s1, int s2) {
 #define R1(X) (ns == 0 ? snprintf(d, n, fmt, X) : ns == 1 ? snprintf(d, n, fmt, s1, X) : snprintf(d, n, fmt, s1, s2, X))
+    if (type == T_MULTI) return snprintf(d, n, fmt, MARGS);
     switch (type) {
     case T_NONE: return R1(0);
     case T_INT: case T_CHAR: return R1((int)v.i); case T_LONG: return R1((long)v.i); case T_LLONG: return R1((long long)v.i);
@@ -78,7 +118,7 @@ static void report(const char *entry, const char *what, const char *cls, const c
     if (nsig < MAXSIG) { strcpy(sigs[nsig], sig); strncpy(sigcase[nsig], cs, 63); sigcnt[nsig] = 1; nsig++; }
 }
 static int verbose, only_entry = -1; static long only_dmax = -1;
-static const char *ENT[] = { "sprintf_s", "snprintf_s", "fprintf_s" };
+static const char *ENT[] = { "sprintf_s", "snprintf_s", "fprintf_s", "printf_s", "vsprintf_s", "vsnprintf_s", "vfprintf_s", "vprintf_s" };
 
 /* float comparison: same layout class and value within one unit of the last printed digit */
 static int float_ok(const char *lib, const char *ref, long double arg) {
@@ -93,8 +133,9 @@ static int float_ok(const char *lib, const char *ref, long double arg) {
     if (ld && rd) { int a = 0, b = 0; for (const char *p = ld + 1; *p >= '0' && *p <= '9'; p++) a++; for (const char *p = rd + 1; *p >= '0' && *p <= '9'; p++) b++; if (a != b) return 0; }
     if (strlen(lib) != strlen(ref)) return 0;
     if (isnan((double)arg) || isinf((double)arg)) return 0;    /* text must be identical for these */
-    char *e1, *e2; long double x = strtold(lib, &e1), y = strtold(ref, &e2);
-    if (e1 == lib || e2 == ref) return 0;
+    if (lib[0] != '[' || ref[0] != '[') return 0;   /* every directive is wrapped in brackets */
+    char *e1, *e2; long double x = strtold(lib + 1, &e1), y = strtold(ref + 1, &e2);
+    if (e1 == lib + 1 || e2 == ref + 1) return 0;
     if (strcmp(e1, e2)) return 0;                                /* trailing padding must agree */
     /* one unit of the last printed digit, from the reference text */
     int digits_after = 0; if (rd) for (const char *p = rd + 1; *p >= '0' && *p <= '9'; p++) digits_after++;
@@ -121,33 +162,34 @@ static void one(const char *fmt, int type, Val v, int ns, int s1, int s2, int is
     n_formats++;
     size_t dms[5] = { 1, n > 1 ? n - 1 : 1, n ? n : 1, n + 1, 256 }; int ndm = tier ? 5 : 4;
     char vb[32], cs[200];
-    for (int entry = 0; entry < 3; entry++) for (int di = 0; di < (entry == 2 ? 1 : ndm); di++) {
-        size_t dmax = entry == 2 ? 0 : dms[di];
+    for (int entry = 0; entry < NENT; entry++) for (int di = 0; di < (IS_STREAM(entry) ? 1 : ndm); di++) {
+        size_t dmax = IS_STREAM(entry) ? 0 : dms[di];
         if (only_entry >= 0 && (entry != only_entry || (long)dmax != only_dmax)) continue;
-        int dup = 0; for (int k = 0; k < di; k++) if (dms[k] == dmax) dup = 1; if (dup && entry != 2) continue;
+        int dup = 0; for (int k = 0; k < di; k++) if (dms[k] == dmax) dup = 1; if (dup && !IS_STREAM(entry)) continue;
         snprintf(cs, sizeof cs, "%d %d %d %d %zu %d %s", type, vi, s1, s2, dmax, entry, fmt);
         char out2[2][700]; int rr[2]; int done2 = 0;
         for (int hist = 0; hist < 2; hist++) {
             /* history: a neutral call, or a call through the long-double / hex-float path, precedes the case */
             char pre[64]; if (hist == 0) f_sprintf(pre, sizeof pre, BOSU, "%d", 1); else f_sprintf(pre, sizeof pre, BOSU, "%Lf|%a", (long double)3.25, 1.0);
             char dest[800]; memset(dest, 0x55, sizeof dest); char *mem = NULL; size_t ml = 0; FILE *fp = NULL;
-            if (entry == 2) fp = open_memstream(&mem, &ml);
+            if (IS_STREAM(entry) && !IS_STDOUT(entry)) fp = sfp;   /* a descriptor-backed stream: vfprintf_s rejects streams without one */
             int r = 0, crashed = 0; h_n = 0; n_calls++;
             if (sigsetjmp(jb, 1) == 0) { armed = 1; r = call_lib(entry, dest, dmax, fp, fmt, type, v, ns, s1, s2); armed = 0; } else crashed = 1;
-            if (fp) { fclose(fp); size_t c = ml < 699 ? ml : 699; memcpy(dest, mem, c); dest[c] = 0; free(mem); }
+            if (fp) { fflush(fp); ssize_t c = pread(sf_fd, dest, 699, 0); if (c < 0) c = 0; dest[c] = 0; fseek(fp, 0, SEEK_SET); if (ftruncate(sf_fd, 0)) {} (void)mem; (void)ml; }
+            if (IS_STDOUT(entry)) { fflush(stdout); ssize_t c = pread(so_fd, dest, 699, 0); if (c < 0) c = 0; dest[c] = 0; if (ftruncate(so_fd, 0)) {} lseek(so_fd, 0, SEEK_SET); }
             rr[hist] = r; memcpy(out2[hist], dest, 700); out2[hist][699] = 0;
-            if (verbose) printf("entry %s dmax=%zu hist=%d: ret=%d handler=%d crashed=%d out=\"%.80s\"   libc: n=%d \"%.80s\"\n", ENT[entry], dmax, hist, r, h_n, crashed, r >= 0 || entry == 2 ? dest : "(cleared)", n, ref);
+            if (verbose) printf("entry %s dmax=%zu hist=%d: ret=%d handler=%d crashed=%d out=\"%.80s\"   libc: n=%d \"%.80s\"\n", ENT[entry], dmax, hist, r, h_n, crashed, r >= 0 || IS_STREAM(entry) ? dest : "(cleared)", n, ref);
             if (crashed) { report(ENT[entry], "crash", cls, cs); return; }
             if (hist == 1) { done2 = 1; break; }
-            int fits = entry == 2 || (size_t)n < dmax;
+            int fits = IS_STREAM(entry) || (size_t)n < dmax;
             if (fits) {
                 if (r < 0) { report(ENT[entry], "fails-although-it-fits", cls, cs); break; }
                 if (r != n) { report(ENT[entry], "wrong-return-count", cls, cs); break; }
                 int same = isfloat ? float_ok(dest, ref, type == T_DBL ? (long double)v.d : v.ld) : !strcmp(dest, ref);
                 if (!same) { report(ENT[entry], isfloat ? "float-rendering-differs" : "text-differs-from-printf", cls, cs); break; }
             } else {
-                if (entry == 0 && r >= 0) { report(ENT[entry], "success-although-it-does-not-fit", cls, cs); break; }
-                if (entry == 1 && r >= 0) {   /* truncating variant: would-be length and a terminated prefix */
+                if (!IS_TRUNC(entry) && r >= 0) { report(ENT[entry], "success-although-it-does-not-fit", cls, cs); break; }
+                if (IS_TRUNC(entry) && r >= 0) {   /* truncating variant: would-be length and a terminated prefix */
                     if (memchr(dest, 0, dmax) == NULL) { report(ENT[entry], "truncated-result-unterminated", cls, cs); break; }
                     if (!isfloat && strncmp(dest, ref, strlen(dest))) { report(ENT[entry], "truncated-text-differs-from-printf", cls, cs); break; }
                 }
@@ -159,12 +201,16 @@ static void one(const char *fmt, int type, Val v, int ns, int s1, int s2, int is
 }
 
 int main(int argc, char **argv) {
-    setvbuf(stdout, NULL, _IOLBF, 0); setlocale(LC_ALL, "C.UTF-8");
+    setlocale(LC_ALL, "C.UTF-8");
+    res = fdopen(dup(1), "w"); so_fd = memfd_create("stdout", 0); if (!res || so_fd < 0 || dup2(so_fd, 1) < 0) return 2;
+    setvbuf(res, NULL, _IOLBF, 0);
+    sf_fd = memfd_create("stream", 0); sfp = fdopen(sf_fd, "w"); if (!sfp) return 2;
     void *L = dlopen(getenv("CAT_LIB"), RTLD_NOW | RTLD_GLOBAL);
     if (!L) { fprintf(stderr, "cannot load CAT_LIB\n"); return 2; }
-    f_sprintf = (spf)dlsym(L, "_sprintf_s_chk"); f_snprintf = (spf)dlsym(L, "_snprintf_s_chk"); f_fprintf = (fpf)dlsym(L, "fprintf_s");
+    f_sprintf = (spf)dlsym(L, "_sprintf_s_chk"); f_snprintf = (spf)dlsym(L, "_snprintf_s_chk"); f_fprintf = (fpf)dlsym(L, "fprintf_s"); f_printf = (ppf)dlsym(L, "printf_s");
+    f_vsprintf = dlsym(L, "_vsprintf_s_chk"); f_vsnprintf = dlsym(L, "_vsnprintf_s_chk"); f_vfprintf = dlsym(L, "vfprintf_s"); f_vprintf = dlsym(L, "vprintf_s");
     void *(*ss)(void *) = dlsym(L, "set_str_constraint_handler_s");
-    if (!f_sprintf || !f_snprintf || !f_fprintf || !ss) { fprintf(stderr, "missing symbols\n"); return 2; }
+    if (!f_sprintf || !f_snprintf || !f_fprintf || !ss || !f_printf || !f_vsprintf || !f_vsnprintf || !f_vfprintf || !f_vprintf) { fprintf(stderr, "missing symbols\n"); return 2; }
     ss((void *)handler);
     struct sigaction sa; memset(&sa, 0, sizeof sa); sa.sa_handler = on_sig; sa.sa_flags = SA_NODEFER; sigaction(SIGSEGV, &sa, NULL); sigaction(SIGABRT, &sa, NULL); sigaction(SIGFPE, &sa, NULL);
     if (argc >= 9 && !strcmp(argv[1], "replay")) {
@@ -172,7 +218,9 @@ int main(int argc, char **argv) {
         Val v; memset(&v, 0, sizeof v);
         if (type >= T_INT && type <= T_PTRDIFF) v.i = IV[vi]; else if (type >= T_UINT && type <= T_UIMAX) v.u = UV[vi]; else if (type == T_DBL) v.d = DV[vi]; else if (type == T_LDBL) v.ld = DV[vi];
         else if (type == T_STR) v.s = SV[vi]; else if (type == T_WSTR) v.w = WV[vi]; else if (type == T_WINT) v.i = WCV[vi]; else if (type == T_CHAR) v.i = CV[vi];
+        if (type == T_MULTI) { int ix[4], k = parse_multi(fmt, ix); char f2[128]; if (k < 0 || build_multi(ix, k, vi, f2) || strcmp(f2, fmt)) { fprintf(stderr, "cannot rebuild the arguments of %s\n", fmt); return 2; } }
         int ns = 0; for (const char *p = fmt; *p; p++) if (*p == '*') ns++;
+        if (type == T_MULTI) ns = 0;
         int isf = strpbrk(fmt, "fFeEgGaA") != NULL && type >= T_DBL && type <= T_LDBL;
         one(fmt, type, v, ns, s1, s2, isf, "replay", vi, 1);
         if (nsig) { printf("VERDICT violation %s\n", sigs[0]); return 1; }
@@ -180,18 +228,24 @@ int main(int argc, char **argv) {
     }
     if (argc < 5) return 2;
     const char *group = argv[1]; int tier = !strcmp(argv[2], "thorough"); long shard = atol(argv[3]), nsh = atol(argv[4]); long idx = 0;
-    static const char *WID[] = { "", "1", "5", "12", "40", "*" }; static const int WIDV[] = { 0, 0, 0, 0, 0, 7 };
-    static const char *PRE[] = { "", ".0", ".1", ".5", ".12", ".40", ".*" }; static const int PREV[] = { 0, 0, 0, 0, 0, 0, 3 };
+    /* width / precision menus: the quick tier takes the representatives, the thorough tier every value around the digit-buffer sizes */
+    static char WIDB[40][8], PREB[40][8]; const char *WID[40], *PRE[40]; int NW = 0, NP = 0, WSTAR, PSTAR;
+    { static const int qw[] = { 1, 5, 12, 40 }, qp[] = { 0, 1, 5, 12, 40 };
+      static const int tw[] = { 1, 2, 3, 4, 5, 6, 7, 8, 9, 10, 11, 12, 13, 16, 17, 20, 31, 32, 33, 34, 40, 64, 100 }, tp[] = { 0, 1, 2, 3, 4, 5, 6, 7, 8, 9, 10, 11, 12, 15, 16, 17, 18, 20, 31, 32, 33, 40, 64 };
+      WID[NW++] = ""; for (int i = 0; i < (tier ? 23 : 4); i++) { sprintf(WIDB[NW], "%d", tier ? tw[i] : qw[i]); WID[NW] = WIDB[NW]; NW++; } WSTAR = NW; WID[NW++] = "*";
+      PRE[NP++] = ""; if (tier) PRE[NP++] = "."; for (int i = 0; i < (tier ? 23 : 5); i++) { sprintf(PREB[NP], ".%d", tier ? tp[i] : qp[i]); PRE[NP] = PREB[NP]; NP++; } PSTAR = NP; PRE[NP++] = ".*"; }
+#define WCLS(wi) ((wi) == 0 ? "none" : (wi) == WSTAR ? "*" : atoi(WID[wi]) > 32 ? "33+" : "1-32")
+#define PCLS(pi) ((pi) == 0 ? "none" : (pi) == PSTAR ? ".*" : atoi(PRE[pi] + 1) == 0 ? ".0" : atoi(PRE[pi] + 1) <= 8 ? ".1-8" : atoi(PRE[pi] + 1) == 9 ? ".9" : ".10+")
     static const char *ILEN[] = { "", "hh", "h", "l", "ll", "z", "j", "t" };
     static const int ITYP[] = { T_INT, T_INT, T_INT, T_LONG, T_LLONG, T_SSIZE, T_IMAX, T_PTRDIFF }, UTYP[] = { T_UINT, T_UINT, T_UINT, T_ULONG, T_ULLONG, T_SIZE, T_UIMAX, T_SIZE };
-    char fmt[64], cls[120], fl[8];
+    char fmt[128], cls[160], fl[8];
     for (int fm = 0; fm < 32; fm++) {
         int k = 0; if (fm & 1) fl[k++] = '-'; if (fm & 2) fl[k++] = '+'; if (fm & 4) fl[k++] = ' '; if (fm & 8) fl[k++] = '#'; if (fm & 16) fl[k++] = '0'; fl[k] = 0;
-        for (int wi = 0; wi < 6; wi++) for (int pi = 0; pi < 7; pi++) {
-            int ns = (wi == 5) + (pi == 6);
-            int s1 = wi == 5 ? WIDV[wi] : PREV[pi], s2 = PREV[pi];
-            for (int neg = 0; neg < ((wi == 5 || pi == 6) ? 2 : 1); neg++) {     /* '*' with a negative value too */
-                int a1 = s1, a2 = s2; if (neg) { if (wi == 5) a1 = -7; if (pi == 6) { if (wi == 5) a2 = -1; else a1 = -1; } }
+        for (int wi = 0; wi < NW; wi++) for (int pi = 0; pi < NP; pi++) {
+            int ns = (wi == WSTAR) + (pi == PSTAR);
+            int s1 = wi == WSTAR ? 7 : 3, s2 = 3;
+            for (int neg = 0; neg < ((wi == WSTAR || pi == PSTAR) ? 2 : 1); neg++) {     /* '*' with a negative value too */
+                int a1 = s1, a2 = s2; if (neg) { if (wi == WSTAR) a1 = -7; if (pi == PSTAR) { if (wi == WSTAR) a2 = -1; else a1 = -1; } }
                 if (!strcmp(group, "int") || !strcmp(group, "all")) {
                     for (int ci = 0; ci < 6; ci++) { char cv = "diuxXo"[ci]; int uns = ci >= 2;
                         if ((fm & 8) && ci < 3) continue;                                  /* '#' is undefined for d i u */
@@ -215,7 +269,7 @@ int main(int argc, char **argv) {
                             if ((idx++ % nsh) != shard) continue;
                             snprintf(fmt, sizeof fmt, "[%%%s%s%s%s%c]", fl, WID[wi], PRE[pi], li ? "L" : "", cv);
                             for (int vi = 0; vi < 19; vi++) { Val v; memset(&v, 0, sizeof v); if (li) v.ld = DV[vi]; else v.d = DV[vi];
-                                char vb[32]; snprintf(cls, sizeof cls, "%c,flags=%s,width=%s,prec=%s,len=%s,%s%s", cv | 0x20, fl[0] ? fl : "none", wi == 0 ? "none" : wi == 5 ? "*" : wi == 4 ? "33+" : "1-32", pi == 0 ? "none" : pi == 1 ? ".0" : pi == 6 ? ".*" : pi <= 3 ? ".1-9" : ".10+", li ? "L" : "none", valcls(li ? T_LDBL : T_DBL, v, vb), neg ? ",negative-star" : "");
+                                char vb[32]; snprintf(cls, sizeof cls, "%c,flags=%s,width=%s,prec=%s,len=%s,%s%s", cv | 0x20, fl[0] ? fl : "none", WCLS(wi), PCLS(pi), li ? "L" : "none", valcls(li ? T_LDBL : T_DBL, v, vb), neg ? ",negative-star" : "");
                                 one(fmt, li ? T_LDBL : T_DBL, v, ns, a1, a2, 1, cls, vi, tier);
                             }
                         }
@@ -228,22 +282,22 @@ int main(int argc, char **argv) {
                     for (int vi = 0; vi < 3; vi++) { Val v; v.w = WV[vi]; snprintf(fmt, sizeof fmt, "[%%%s%s%sls]", fl, WID[wi], PRE[pi]);
                         snprintf(cls, sizeof cls, "ls,flags=%s,width=%s,prec=%s%s", fl[0] ? fl : "none", WID[wi][0] ? WID[wi] : "none", PRE[pi][0] ? PRE[pi] : "none", neg ? ",negative-star" : ""); one(fmt, T_WSTR, v, ns, a1, a2, 0, cls, vi, tier); }
                     if (pi == 0) {
-                        for (int vi = 0; vi < 3; vi++) { Val v; v.i = CV[vi]; snprintf(fmt, sizeof fmt, "[%%%s%sc]", fl, WID[wi]); snprintf(cls, sizeof cls, "c,flags=%s,width=%s", fl[0] ? fl : "none", WID[wi][0] ? WID[wi] : "none"); one(fmt, T_CHAR, v, wi == 5, a1, 0, 0, cls, vi, tier); }
-                        for (int vi = 0; vi < 2; vi++) { Val v; v.i = WCV[vi]; snprintf(fmt, sizeof fmt, "[%%%s%slc]", fl, WID[wi]); snprintf(cls, sizeof cls, "lc,flags=%s,width=%s", fl[0] ? fl : "none", WID[wi][0] ? WID[wi] : "none"); one(fmt, T_WINT, v, wi == 5, a1, 0, 0, cls, vi, tier); }
+                        for (int vi = 0; vi < 3; vi++) { Val v; v.i = CV[vi]; snprintf(fmt, sizeof fmt, "[%%%s%sc]", fl, WID[wi]); snprintf(cls, sizeof cls, "c,flags=%s,width=%s", fl[0] ? fl : "none", WID[wi][0] ? WID[wi] : "none"); one(fmt, T_CHAR, v, wi == WSTAR, a1, 0, 0, cls, vi, tier); }
+                        for (int vi = 0; vi < 2; vi++) { Val v; v.i = WCV[vi]; snprintf(fmt, sizeof fmt, "[%%%s%slc]", fl, WID[wi]); snprintf(cls, sizeof cls, "lc,flags=%s,width=%s", fl[0] ? fl : "none", WID[wi][0] ? WID[wi] : "none"); one(fmt, T_WINT, v, wi == WSTAR, a1, 0, 0, cls, vi, tier); }
                     }
                 }
             }
         }
     }
     if ((!strcmp(group, "str") || !strcmp(group, "all")) && shard == 0) { Val v; memset(&v, 0, sizeof v); one("100%% sure", T_NONE, v, 0, 0, 0, 0, "percent", 0, tier); one("%%%%", T_NONE, v, 0, 0, 0, 0, "percent", 0, tier); }
-    /* pairs of directives with literal text between (thorough): integer + string, float + integer */
-    if (tier && (!strcmp(group, "pairs") || !strcmp(group, "all")) && shard == 0) {
-        static const char *A[] = { "%d", "%5d", "%-5d", "%x", "%05d", "%+d", "%.3d" }, *B[] = { "%s", "%5s", "%-5s", "%.2s" };
-        for (int a = 0; a < 7; a++) for (int b = 0; b < 4; b++) for (int vi = 0; vi < 5; vi++) {
-            /* two arguments: use the star slot for the int and the value slot for the string */
-            snprintf(fmt, sizeof fmt, "%s, %s.", A[a], B[b]); Val v; v.s = SV[1];
-            snprintf(cls, sizeof cls, "pair,%s,%s", A[a], B[b]); one(fmt, T_STR, v, 1, (int)IV[vi], 0, 0, cls, 1, tier);
-        }
+    /* formats of 2..K directives from the menu, two argument variants each (quick K=2, thorough K=4) */
+    if (!strcmp(group, "multi") || !strcmp(group, "all")) {
+        int K = tier ? 4 : 2; Val v; memset(&v, 0, sizeof v);
+        for (int k = 2; k <= K; k++) { long total = 1; for (int i = 0; i < k; i++) total *= NMENU;
+            for (long c = 0; c < total; c++) { if ((idx++ % nsh) != shard) continue;
+                int ix[4]; long t = c; for (int i = 0; i < k; i++) { ix[i] = t % NMENU; t /= NMENU; }
+                for (int variant = 0; variant < 2; variant++) { if (build_multi(ix, k, variant, fmt)) continue;
+                    snprintf(cls, sizeof cls, "multi,%s", fmt); one(fmt, T_MULTI, v, 0, 0, 0, 0, cls, variant, tier); } } }
     }
     for (int i = 0; i < nsig; i++) printf("{\"t\":\"viol\",\"sig\":\"%s\",\"n\":%ld,\"case\":\"%s\"}\n", sigs[i], sigcnt[i], sigcase[i]);
     printf("{\"t\":\"stat\",\"group\":\"%s\",\"formats_with_values\":%ld,\"calls\":%ld,\"float_within_tolerance\":%ld,\"violating\":%ld,\"signatures\":%d}\n", group, n_formats, n_calls, n_float_tol, n_viol, nsig);
